@@ -122,6 +122,53 @@ fn prune_probe(a: &mut Vec<i128>) -> String {
 	}
 }
 
+/// monitor_reorg_probe <style> <a> <down> <c>
+/// Two real nodes, one channel, a pending *dust* HTLC 0 -> 1; node 0 force-closes and its commitment
+/// transaction confirms at height H. Then `a` more blocks are connected, the chain is rewound by
+/// `down` blocks (down <= a + 1; down = a + 1 also disconnects the block holding the commitment
+/// transaction) and `c` empty blocks are connected. Output (node 0's monitor):
+///   best height - H | FundingSpendConfirmation entry at H still awaiting (0/1) | funding spend
+///   irrevocably confirmed (0/1) | number of outbound HTLCs reported as failed on chain
+/// style: 0 FullBlockViaListen, 1 BestBlockFirst, 2 TransactionsFirst, 3 FullBlockDisconnectionsSkippingViaListen
+fn monitor_reorg_probe(a: &mut Vec<i128>) -> String {
+	use lightning::ln::types::ChannelId;
+	let (style, up, down, again) = (a[0], a[1] as u32, a[2] as u32, a[3] as u32);
+	let chanmon_cfgs = create_chanmon_cfgs(2);
+	let node_cfgs = create_node_cfgs(2, &chanmon_cfgs);
+	let node_chanmgrs = create_node_chanmgrs(2, &node_cfgs, &[None, None]);
+	let nodes = create_network(2, &node_cfgs, &node_chanmgrs);
+	let cs = match style {
+		0 => ConnectStyle::FullBlockViaListen,
+		1 => ConnectStyle::BestBlockFirst,
+		2 => ConnectStyle::TransactionsFirst,
+		_ => ConnectStyle::FullBlockDisconnectionsSkippingViaListen,
+	};
+	*nodes[0].connect_style.borrow_mut() = cs;
+	*nodes[1].connect_style.borrow_mut() = cs;
+	let chan = create_announced_chan_between_nodes(&nodes, 0, 1);
+	let chan_id: ChannelId = chan.2;
+	let _ = route_payment(&nodes[0], &[&nodes[1]], 100_000);
+	let peer = nodes[1].node.get_our_node_id();
+	nodes[0].node.force_close_broadcasting_latest_txn(&chan_id, &peer, "probe".to_string()).unwrap();
+	let commitment = {
+		let mon = nodes[0].chain_monitor.chain_monitor.get_monitor(chan_id).unwrap();
+		mon.unsafe_get_latest_holder_commitment_txn(&nodes[0].logger)[0].clone()
+	};
+	mine_transaction(&nodes[0], &commitment);
+	let h = nodes[0].best_block_info().1;
+	if up > 0 { connect_blocks(&nodes[0], up); }
+	if down > 0 { disconnect_blocks(&nodes[0], down); }
+	if again > 0 { connect_blocks(&nodes[0], again); }
+	let res = {
+		let mon = nodes[0].chain_monitor.chain_monitor.get_monitor(chan_id).unwrap();
+		let (best, heights, confirmed, failed) = lightning::chain::channelmonitor::verif_hooks::reorg_observation(&mon);
+		format!("{} {} {} {}", best as i64 - h as i64, heights.iter().any(|x| *x == h) as u8, confirmed as u8, failed)
+	};
+	// the probe ends mid-protocol: skip the end-of-test consistency checks of the test harness
+	core::mem::forget(nodes);
+	res
+}
+
 fn main() {
 	if std::env::var("ORACLE_DEBUG").is_err() { std::panic::set_hook(Box::new(|_| {})); }
 	let stdin = std::io::stdin();
@@ -139,6 +186,7 @@ fn main() {
 			"forward_probe" => forward_probe(&mut args),
 			"closing_probe" => closing_probe(&mut args),
 			"prune_probe" => prune_probe(&mut args),
+			"monitor_reorg_probe" => monitor_reorg_probe(&mut args),
 			_ => format!("error unknown function {}", name),
 		}));
 		match r {
